@@ -117,6 +117,7 @@ PROPS = {
             {"name": "c11.bundle-trains", "pkg": UTILS, "test": "TestVerifC11BundleTrains", "shards_t": 8},
             {"name": "c11.managers", "pkg": UTILS, "test": "TestVerifC11Managers", "shards_t": 16, "shards_q": 4},
             {"name": "c11.faults", "pkg": UTILS, "test": "TestVerifC11Faults", "shards_t": 4},
+            {"name": "c11.concurrent-stress", "pkg": UTILS, "test": "TestVerifC11ConcurrentStress", "shards_t": 4, "shards_q": 2},
             {"name": "c11.sockets", "pkg": TCPCL, "test": "TestVerifC11Sockets", "shards_t": 16, "shards_q": 4, "crash_is_violation": True},
         ],
     },
@@ -203,6 +204,8 @@ PROPS = {
         "units": [
             {"name": "c05.histories", "pkg": ROUTING, "test": "TestVerifC05Histories", "shards_t": 16, "shards_q": 6, "crash_is_violation": True},
             {"name": "c05.concurrent-failures", "pkg": ROUTING, "test": "TestVerifC05ConcurrentFailures", "shards_t": 4, "shards_q": 2, "crash_is_violation": True},
+            {"name": "c05.simultaneous-failures", "pkg": ROUTING, "test": "TestVerifC05SimultaneousFailures", "shards_t": 4, "shards_q": 2, "crash_is_violation": True},
+            {"name": "c05.directed", "pkg": ROUTING, "test": "TestVerifC05Directed", "shards_t": 16, "shards_q": 8, "crash_is_violation": True},
         ],
     },
     "C13": {
